@@ -165,6 +165,11 @@ func c06Fixed(c *ev.Ctx) {
 		{"return-from-three-nested-loops-in-function", `function f(a){ foreach x in "ab" { foreach y in 1..2 { foreach z in {"k": 1} { return z + a; } } } return 0; } a = 5; r = f(10); s = f(20); return [a, r, s];`, "ARRAY:[5, 11, 21]"},
 		{"error-inside-two-nested-loops-in-function", `function f(a){ foreach x in [1] { foreach y in [2] { if (Bad) { return 1 / Zero; } } } return a; } a = 7; r = f(8); return [a, r];`, "ARRAY:[7, 8]"},
 		{"assignment-to-global-after-nested-return", `function f(a){ foreach x in [1,2] { foreach y in [3,4] { return 1; } } return 0; } a = 1; f(5); a = 2; return a;`, "INTEGER:2"},
+		{"local-over-a-parameter-starts-as-null", `function f(a) { local a; return a; } return [f(5), f("x")];`, "ARRAY:[null, null]"},
+		{"local-declared-twice-starts-afresh", `function f() { local x; x = 1; local x; return x; } return f();`, "NULL:null"},
+		{"local-in-a-loop-body-starts-afresh-every-round", `function f() { r = 0; foreach i in [1, 2, 3] { local s; if (s) { r = r + 100; } s = i; r = r + 1; } return r; } return [f(), f()];`, "ARRAY:[3, 3]"},
+		{"local-in-a-while-body-starts-afresh-every-round", `function f() { r = 0; w = 3; while (w > 0) { w--; local s; if (s) { r = r + 100; } s = 1; r = r + 1; } return r; } return f();`, "INTEGER:3"},
+		{"local-over-the-loop-variable", `function f() { r = []; foreach v1 in [7, 8] { local v1; r = [v1]; } return r; } return f();`, "ARRAY:[null]"},
 		{"mutual-params", `function f(a){ return g(a+1) + a; } function g(a){ return a * 10; } return f(1);`, "INTEGER:21"},
 	}
 	for _, tc := range cases {
